@@ -73,6 +73,8 @@ FilesExc == [
   \* exclude files that define the same name differently: the one listed first decides
   xd1   |-> [dir |-> "exclude", lines |-> << SDefine("s", <<W("b")>>), SEntry(<<W("b"), PRef("s")>>) >>],
   xd2   |-> [dir |-> "exclude", lines |-> << SDefine("s", <<W("a")>>), SEntry(<<W("b"), PRef("s")>>) >>],
+  \* an exclusion that ends in a blank is another text than the entry without it
+  xsp   |-> [dir |-> "exclude", lines |-> << E("ba "), E("a") >>],
   xc    |-> [dir |-> "exclude", lines |-> << SComment("##! nothing to exclude here"), SBlank(""), SDefine("u", <<W("b")>>) >>],
   \* a word list whose order shows in the output (no common prefixes), with a repeated entry
   f3    |-> [dir |-> "include", lines |-> << E("cu"), E("wg"), E("cu"), E("nm"), E("py") >>],
@@ -84,7 +86,9 @@ FilesExc == [
 FilesDef == [
   dinc  |-> [dir |-> "include", lines |-> << SEntry(<<W("b"), PRef("p")>>), SEntry(<<PRef("q")>>) >>],
   \* an include file with a definition of its own, under a name the including file may define as well
-  ddef  |-> [dir |-> "include", lines |-> << SDefine("p", <<W("b")>>), SEntry(<<PRef("p"), W("a")>>) >>]
+  ddef  |-> [dir |-> "include", lines |-> << SDefine("p", <<W("b")>>), SEntry(<<PRef("p"), W("a")>>) >>],
+  \* ... and one whose PREFIX line uses the file's own definition
+  dpfx  |-> [dir |-> "include", lines |-> << SDefine("p", <<W("b")>>), SPrefix(<<PRef("p")>>), E("a") >>]
 ]
 
 Files == CASE Family = "inc" -> FilesIncAll [] Family = "exc" -> FilesExc [] Family = "def" -> FilesDef
@@ -97,7 +101,7 @@ FileLines == [f \in DOMAIN Files |-> Files[f].lines]
 IncOf(f)     == SInclude(f, <<>>)
 Blocks == << LStart("assemble", ""), LStart("cmdline", "unix"), LEnd, LConcat >>
 
-VocInc == << E("a"), E("b"), SEntry(<<PRef("v")>>), SEntry(<<PRef("w"), W("a")>>),
+VocInc == << E("a"), E("b"), SEntry(<<PRef("v")>>), SEntry(<<PRef("w"), W("a")>>), SFlags(<<"i">>),
              SDefine("v", <<W("bb")>>), SDefine("w", <<ClsAB>>) >>
           \o << IncOf("plain"), (IncOf("plain") @@ [ext |-> TRUE]), IncOf("noisy"), IncOf("pfx"), IncOf("sfx"),
                 IncOf("both"), IncOf("defs"), IncOf("nest"), IncOf("nest2"), IncOf("blk"), IncOf("xdir"),
@@ -111,6 +115,7 @@ Pairs2 == << <<"b", "\"\"">> >>
 Pairs3 == << <<"a", "b">>, <<"b", "ab">> >>          \* the replacement of the first ends in the key of the second
 Pairs4 == << <<"ab", "b">>, <<"b", "a">> >>          \* one key is an ending of the other
 Pairs5 == << <<"bb", "a">>, <<"zz", "b">>, <<"ab", "\"\"">> >>
+Pairs7 == << <<"ab", "ab">>, <<"b", "a">> >>        \* an identity pair shields its entries from the later, shorter key
 Pairs6 == << <<"b", "\"\"">>, <<"a", "b">> >>      \* what a deletion leaves over ends in the key of a later pair
 \* (an entry that consists of nothing but a deleted ending is outside the model: the
 \* statement does not say whether an empty entry or no entry results)
@@ -122,7 +127,7 @@ VocExc == << E("b"),
              SInclExc("f1", <<"x1">>, Pairs1), SInclExc("f1", <<"x2">>, Pairs3), SInclExc("f2", <<"x3">>, Pairs4),
              SInclude("f1", Pairs1), SInclude("f1", Pairs2), SInclude("f1", Pairs3), SInclude("f1", Pairs4),
              SInclExc("f1", <<"xd1", "xd2">>, <<>>), SInclExc("f1", <<"xd2", "xd1">>, <<>>), SInclExc("f3", <<"xd2", "x3", "xd1">>, <<>>),
-             SInclude("f1", Pairs5), SInclude("f2", Pairs3), SInclude("f2", <<>>), SInclude("f1", Pairs6),
+             SInclude("f1", Pairs5), SInclude("f2", Pairs3), SInclude("f2", <<>>), SInclude("f1", Pairs6), SInclude("f1", Pairs7), SInclExc("f1", <<"xsp">>, <<>>),
              \* keys that are also the ending of a directive line: only entries may be rewritten
              \* an exclude file without entries listed BEFORE one with entries
              SInclExc("f1", <<"x3", "x2">>, <<>>), SInclExc("f3", <<"xc", "x1", "x3">>, <<>>), SInclExc("f2", <<"xc", "xv">>, <<>>),
@@ -137,7 +142,7 @@ VocDef == << SDefine("p", <<W("a")>>), SDefine("q", <<PRef("p"), Aplus>>), SDefi
              SEntry(<<PRef("p")>>), SEntry(<<W("b"), PRef("q")>>), SEntry(<<PRef("r")>>), SEntry(<<PRef("s"), PRef("p")>>),
              SEntry(<<PRef("u"), W("a")>>), E("b"),
              SPrefix(<<PRef("p")>>), SSuffix(<<PRef("s")>>), IncOf("dinc"),
-             SPrefix(<<PRef("q")>>), IncOf("ddef"),                              \* a NESTED definition used by a prefix line
+             SPrefix(<<PRef("q")>>), IncOf("ddef"), IncOf("dpfx"),                              \* a NESTED definition used by a prefix line
              LStart("assemble", ""), LEnd, LConcat >>
 
 Voc0 == CASE Family = "inc" -> VocInc [] Family = "exc" -> VocExc [] Family = "def" -> VocDef
